@@ -617,7 +617,7 @@ func main() {
 	runner.Main(&runner.Harness{
 		ID:    "C08",
 		Level: "model_checking",
-		Rule:  "2-3 concurrent connections with distinguishable streams through SHARED provisioned routes: Server.handle with a prefetching matcher, a subroute every connection falls through, PROXY-header stripping (Connection.Wrap) followed by further matching, throttle with a total limiter, tee, the listener wrapper, the proxy with each of the 6 selection policies and shared peers, and every shipped matcher configuration (2 connections carrying that protocol's messages); deterministic LIFO buffer pool; every interleaving within the delay budget; " + mode,
+		Rule:  "2-3 concurrent connections with distinguishable streams through SHARED provisioned routes: Server.handle with a prefetching matcher, a subroute every connection falls through, PROXY-header stripping (Connection.Wrap) followed by further matching, throttle with a total limiter, tee, the listener wrapper, the proxy with each of the 6 selection policies and shared peers, and every shipped matcher configuration (2 connections carrying that protocol's messages); deterministic LIFO buffer pool; every interleaving within the delay budget; scheduler-free scenario pooled: 2-3 connections on matching buffers taken from the pool, three prefetches each in every order, each buffer stays a prefix of its own stream; " + mode,
 		Assumptions: []string{
 			"sequential consistency for the cross-talk part; weak-memory effects are represented by the race detector's verdicts",
 			"race reports are attributed by the innermost non-runtime frame of both accesses; only pairs inside github.com/mholt/caddy-l4 count",
